@@ -232,8 +232,8 @@ class Check:
         s.nontrivial = 0
         s.solver_time = 0.0
         s.extra = {}
-        os.makedirs(os.path.join(VERIF, 'evidence'), exist_ok=True)
-        os.makedirs(os.path.join(VERIF, 'evidence', 'replays'), exist_ok=True)
+        s.evdir = os.environ.get('VERIF_EVIDENCE_DIR') or os.path.join(VERIF, 'evidence')
+        os.makedirs(os.path.join(s.evdir, 'replays'), exist_ok=True)
 
     def add_result(s, name, res, functions=(), bounds=None, nontrivial=None):
         """res: mirsym.explore.Result"""
@@ -268,7 +268,7 @@ class Check:
             return
         if any(v['key'] == key for v in s.violations) and len(s.violations) > 20:
             return
-        path = os.path.join(VERIF, 'evidence', 'replays', '%s-%s.json' % (s.prop, hashlib.sha1((key + json.dumps(request, sort_keys=True)).encode()).hexdigest()[:10]))
+        path = os.path.join(s.evdir, 'replays', '%s-%s.json' % (s.prop, hashlib.sha1((key + json.dumps(request, sort_keys=True)).encode()).hexdigest()[:10]))
         json.dump({'property': s.prop, 'key': key, 'what': what, 'request': request}, open(path, 'w'), indent=1)
         s.violations.append({'key': key, 'what': what, 'replay': path})
 
@@ -301,7 +301,7 @@ class Check:
         cov.update(s.extra)
         ev = {'property_id': s.prop, 'tier': s.tier, 'seed': s.seed, 'level': s.level, 'coverage': cov,
               'assumptions': s.assumptions, 'wall_s': round(wall, 2), 'violations': len(s.violations)}
-        json.dump(ev, open(os.path.join(VERIF, 'evidence', s.prop + '.json'), 'w'), indent=1, default=str)
+        json.dump(ev, open(os.path.join(s.evdir, s.prop + '.json'), 'w'), indent=1, default=str)
         for v in s.violations[:10]:
             log('VIOLATION property=%s replay=%s' % (s.prop, v['replay']))
             log('    ' + v['what'])
